@@ -1025,6 +1025,10 @@ func (g *G) FuncDef() string {
 						f.WritesGlobals = true
 						touch = v.Name + "++"
 					}
+					if r.Bool(.4) {
+						// EVERY frame reads the global once (in its guard): a callee frame finds the reference its caller's frame made
+						return fmt.Sprintf("func %s(x) { if x <= %s %% 3 { return %d }; 1 + %s(x - %d) }", name, v.Name, base, name, step)
+					}
 					return fmt.Sprintf("func %s(x) { if x <= %d { return %s }; x %s %s(x - %d) }", name, base, touch, op, name, step)
 				}
 			}
